@@ -19,6 +19,8 @@ def emit_replay(v, module, cfg, sub, timeout, overrides=None, invariants=None, p
             raise InfraError("design model %s violates %s with all deviation switches off (specification bug):\n%s" % (module, bad, out[-3000:]))
         if "Model checking completed" not in out and "-simulate" not in extra:
             raise InfraError("TLC did not complete (%s %s):\n%s" % (module, cfg, out[-2500:]))
+        if "-simulate" in extra and "Finished in" not in out:
+            raise InfraError("TLC simulation did not run to its end (%s %s):\n%s" % (module, cfg, out[-2500:]))
         if not os.path.exists(rep):
             raise InfraError("replayer wrote no report:\n" + out[-2000:])
         r = json.load(open(rep))
